@@ -792,7 +792,7 @@ func corpusCase(label string, names, texts []string, nsmod map[string]string, au
 			if id >= len(augs) {
 				lib.Fatal("corpus %s: more augment lines than knowledge", label)
 			}
-			arg := strings.Fields(line)[1]
+			arg := strings.TrimSuffix(strings.Fields(line)[1], ";") // (an augment without body: `augment "/p:x";`)
 			mod := strings.TrimSuffix(names[fi], ".yang")
 			a := &gen.C07Aug{ID: id, File: names[fi], Line: li + 1, Module: mod, TargetArg: strings.Trim(arg, `"`), Expect: augs[id].expect,
 				Nodes: augs[id].nodes, Shape: "corpus", UniqueNames: augs[id].flag != "notunique", Childless: strings.HasPrefix(label, "childless")}
@@ -1249,6 +1249,87 @@ func corpus(seed int64) []rescorr.Case {
 			out = append(out, corpusCase(c.Label+" split="+sp.Sub, sp.Names, sp.Texts, nsmod, augs, nil, seed+int64(len(out))))
 		}
 	}
+	// augment bodies without data nodes (the family of gen/c07barren.go generates these in bulk): whether a
+	// target can have children does not depend on what the augment would add
+	add("body-without-nodes-accepted", []string{"a.yang", "b.yang"}, []string{
+		hdr("a") + "  grouping none;\n  container c {\n    leaf l { type string; }\n    choice h {\n      case s {\n        leaf m { type string; }\n      }\n    }\n  }\n" +
+			"  rpc r;\n  notification n {\n    leaf o { type string; }\n  }\n}\n",
+		hdr("b", "a") + "  augment \"/pa:c\";\n  augment \"/pa:c/pa:h\" { description \"none\"; }\n  augment \"/pa:c/pa:h/pa:s\" { when \"1 = 1\"; }\n" +
+			"  augment \"/pa:r/pa:input\" { uses pa:none; }\n  augment \"/pa:n\" { status current; }\n}\n"},
+		ap(), ap(), ap(), ap(), ap())
+	add("body-without-nodes-reported", []string{"a.yang", "b.yang"}, []string{
+		hdr("a") + "  grouping none;\n  container c {\n    leaf l { type string; }\n    leaf-list ll { type string; }\n    anyxml x;\n    anydata d;\n    action t;\n  }\n  rpc r;\n}\n",
+		hdr("b", "a") + "  augment \"/pa:c/pa:l\";\n  augment \"/pa:c/pa:ll\" { description \"none\"; }\n  augment \"/pa:c/pa:x\" { when \"1 = 1\"; }\n" +
+			"  augment \"/pa:c/pa:d\" { uses pa:none; }\n  augment \"/pa:r\";\n  augment \"/pa:c/pa:t\" { uses pa:none; }\n  augment \"/pa:c/pa:nosuch\";\n}\n"},
+		cAug{expect: gen.C07NoChildren}, cAug{expect: gen.C07NoChildren}, cAug{expect: gen.C07NoChildren}, cAug{expect: gen.C07NoChildren},
+		cAug{expect: gen.C07NoChildren}, cAug{expect: gen.C07NoChildren}, cAug{expect: gen.C07MissingT})
+	out = append(out, namesakeCases(seed+int64(len(out)))...)
+	return out
+}
+
+// namesakeCases: a submodule that carries the name of an unrelated loaded module (modules and
+// submodules are filed in separate tables, the library accepts the namesake): without revisions, with the
+// same revision date (identical full names) and with different dates. The augments written in the
+// namesake submodule are augments like any other: applied to an existing target (in the tree of its own
+// module, of a third module, of the namesake module) exactly once, reported for a missing target; the
+// namesake module has augments of its own.
+func namesakeCases(seed int64) []rescorr.Case {
+	var out []rescorr.Case
+	for ri, revs := range [][2]string{{"", ""}, {"2020-01-01", "2020-01-01"}, {"2020-01-01", "2021-05-05"}, {"2021-05-05", ""}} {
+		for _, target := range []string{"own", "third", "namesake"} {
+			for _, missing := range []bool{false, true} {
+				for _, moduleAugments := range []bool{true, false} {
+					if !moduleAugments && target != "own" {
+						continue
+					}
+					mrev, srev := revs[0], revs[1]
+					rv := func(d string) string {
+						if d == "" {
+							return ""
+						}
+						return "  revision " + d + ";\n"
+					}
+					full := func(n, d string) string {
+						if d == "" {
+							return n
+						}
+						return n + "@" + d
+					}
+					var path, tmod, tpath string
+					switch target {
+					case "own":
+						path, tmod, tpath = "/h:hc", "h", "/h/hc"
+					case "third":
+						path, tmod, tpath = "/b:bc", "b", "/b/bc"
+					default:
+						path, tmod, tpath = "/xm:xc", full("x", mrev), "/x/xc"
+					}
+					sub := "submodule x {\n  belongs-to h { prefix h; }\n  import b { prefix b; }\n  import x { prefix xm; }\n" + rv(srev) +
+						"  container sc {\n    leaf q { type string; }\n  }\n" +
+						"  augment \"" + path + "\" { leaf froms { type string; } }\n"
+					augs := []cAug{{expect: gen.C07Apply, nodes: []gen.C07Node{nd(tmod, tpath+"/froms", "urn:h")}}}
+					if missing {
+						sub += "  augment \"" + path + "/" + path[1:strings.Index(path, ":")] + ":nosuch\" { leaf never { type string; } }\n"
+						augs = append(augs, cAug{expect: gen.C07MissingT})
+					}
+					sub += "}\n"
+					host := "module h {\n  namespace \"urn:h\";\n  prefix h;\n  include x;\n  container hc {\n    leaf own { type string; }\n  }\n}\n"
+					mod := "module x {\n  namespace \"urn:x\";\n  prefix x;\n  import b { prefix b; }\n" + rv(mrev) + "  container xc {\n    leaf l { type string; }\n  }\n"
+					var maugs []cAug
+					if moduleAugments {
+						mod += "  augment \"/b:bc\" { leaf fromx { type string; } }\n"
+						maugs = append(maugs, cAug{expect: gen.C07Apply, nodes: []gen.C07Node{nd("b", "/b/bc/fromx", "urn:x")}})
+					}
+					mod += "}\n"
+					third := "module b {\n  namespace \"urn:b\";\n  prefix b;\n  container bc {\n    leaf l { type string; }\n  }\n}\n"
+					label := fmt.Sprintf("submodule-named-like-a-module revisions=%d target=%s missing=%v module-augments=%v", ri, target, missing, moduleAugments)
+					// (the submodule's file stands before the module's: knowledge entries follow the texts)
+					out = append(out, corpusCase(label, []string{"h.yang", "x-submodule.yang", "x.yang", "b.yang"}, []string{host, sub, mod, third},
+						map[string]string{"urn:h": "h", "urn:x": "x", "urn:b": "b"}, append(augs, maugs...), nil, seed+int64(len(out))))
+				}
+			}
+		}
+	}
 	return out
 }
 
@@ -1341,11 +1422,22 @@ func main() {
 	if v, err := strconv.Atoi(os.Getenv("C07_REVSUB_N")); err == nil && v >= 0 {
 		revSubPerBatch = v // debugging aid (timing with and without the family)
 	}
+	barrenPerBatch := 200
+	if f.Thorough() {
+		barrenPerBatch = 220
+	}
+	if v, err := strconv.Atoi(os.Getenv("C07_BARREN_N")); err == nil && v >= 0 {
+		barrenPerBatch = v // debugging aid
+	}
+	if os.Getenv("C07_ONLY") == "barren" {
+		n, revSubPerBatch = 1, 0 // debugging aid: the corpus, one ordinary set and the bodies-without-nodes family
+	}
 	distinct := lib.NewDistinct()
 	all := lib.NewDistinct()
 	var clean, withErr, outside, skipped, outsideClaim, variantsRun, expClean, expErr, exhaustive, total, childlessSets, childlessSets2, sharedOnlySets, oldRevSets, multiRevSets, pathCases, pathImplicit, pathPartial, noModel, devErrSets, devCtlSets, historyRun, historyBase, clashSets, ioSets, ioTarget, ioThrough, revSubSets, revSubInSub, revSubChained int64
 	shapeCount := map[string]int64{}
 	expectCount := map[string]int64{}
+	barrenCount := map[string]int64{} // augment statements whose body defines no data node, per expectation
 	originCount := map[string]int64{}
 	knownCount := map[string]int64{}
 	oracleCount := map[string]int64{} // disagreements per oracle: perm, once, reported, crash, correspondence(verdict)
@@ -1377,6 +1469,15 @@ func main() {
 			c := caseOfRevSub(gen.C07RevSub(f.Rand(4*n+j), j), f.Seed*1000003+int64(4*n+j), 24)
 			cases = append(cases, c)
 			if hc, ok := historyCase(c); ok && jj%2 == 0 {
+				cases = append(cases, hc)
+			}
+		}
+		// the family "augment bodies without data nodes" (gen/c07barren.go) against every kind of target
+		for jj := 0; jj < barrenPerBatch; jj++ {
+			j := lo/batch*barrenPerBatch + jj
+			c := caseOf(gen.GenerateC07Barren(f.Rand(6*n+j), j), f.Seed*1000003+int64(6*n+j), 12)
+			cases = append(cases, c)
+			if hc, ok := historyCase(c); ok && jj%4 == 0 {
 				cases = append(cases, hc)
 			}
 		}
@@ -1480,6 +1581,9 @@ func main() {
 			}
 			for _, a := range k.Augs {
 				expectCount[a.Expect]++
+				if a.Shape == gen.C07BarrenShape {
+					barrenCount[a.Expect]++
+				}
 				if a.Expect == gen.C07Apply && a.Origin != "" {
 					originCount[a.Origin]++
 				}
@@ -1677,6 +1781,9 @@ func main() {
 	}
 	for k, v := range expectCount {
 		res.Distribution["augments_expect:"+k] = v
+	}
+	for k, v := range barrenCount {
+		res.Distribution["augments_without_data_nodes_in_the_body_expect:"+k] = v
 	}
 	for k, v := range originCount {
 		res.Distribution["applied_target_origin:"+k] = v
